@@ -56,7 +56,7 @@ def main():
     jobs, nd, meta = [], {}, {}
     units = set()
     tid = 0
-    somepts = rng.sample(allpts, 2500) if thorough else None       # thorough: the variant decks probe a sample of the grid
+    somepts = rng.sample(allpts, 300) if thorough else None       # thorough: the variant decks probe a sample of the grid
     for r in recs:
         facets = list(range(0, r['nfacets'] + 1))
         if not thorough and len(facets) > 4:
